@@ -160,9 +160,16 @@ func concat(ps [][]byte) []byte {
 	return out
 }
 
+// pairsSeen / armsSeen feed the pair.* and table.* coverage counters
+var pairsSeen = map[string]int{}
+
 func emit(g *hx.Gen, k keys, n int, stream []byte, class string) {
 	g.Emit("r %s n=%d stream=%s", k.String(), n, hx.Hex(stream))
 	g.Stat("tamper." + class)
+	pairsSeen[k.c+"+"+class]++
+	if k.m != "-" {
+		pairsSeen[k.m+"+"+class]++
+	}
 }
 
 func clone(b []byte) []byte { return append([]byte(nil), b...) }
@@ -569,13 +576,18 @@ func gen(g *hx.Gen) {
 	// and lighter tampering of further streams
 	noneStructured(g, r, true)
 	hx.Shuffle(r, pairs)
-	nfull := 12
+	nfull := 5
 	if g.Thorough() {
 		nfull = len(pairs)
 	}
-	// always: one of each family in full
-	fam := [][2]string{{"aes128-ctr", "hmac-sha2-256"}, {"aes256-ctr", "hmac-sha2-512-etm@openssh.com"}, {"aes128-cbc", "hmac-sha1"},
-		{"3des-cbc", "hmac-sha2-256-etm@openssh.com"}, {"aes128-gcm@openssh.com", "-"}, {"chacha20-poly1305@openssh.com", "-"}, {"arcfour128", "hmac-sha1-96"}, {"none", "-"}}
+	// always: every cipher once in full (every bit flip, every truncation), MACs rotating, plus an EtM stream pair
+	fam := [][2]string{{"aes256-ctr", "hmac-sha2-512-etm@openssh.com"}, {"none", "-"}}
+	for i, c := range append(append([]string{}, streamCiphers...), cbcCiphers...) {
+		fam = append(fam, [2]string{c, macs[(i+int(r.U64()%6))%len(macs)]})
+	}
+	for _, c := range aeadCiphers {
+		fam = append(fam, [2]string{c, "-"})
+	}
 	for _, pr := range fam {
 		tamperOne(g, r, newKeys(r, pr[0], pr[1]), true)
 	}
@@ -588,8 +600,22 @@ func gen(g *hx.Gen) {
 			tamperOne(g, r, newKeys(r, pr[0], pr[1]), false)
 		}
 	}
+	defer func() {
+		// feature pairs: every cipher and every MAC name with every tamper class that applies to it
+		for p, c := range pairsSeen {
+			g.StatN("pair."+p, c)
+		}
+		g.Stat(fmt.Sprintf("table.cipherModes=%d/%d", len(streamCiphers)+len(cbcCiphers)+len(aeadCiphers), len(ssh.VerifCipherTable())))
+		g.Stat(fmt.Sprintf("table.macModes=%d/%d", len(macs), len(ssh.VerifMACTable())))
+		// error-return arms of the five readers, each aimed at by construction (class that produces it):
+		//  stream/none: eof-header, eof-body (truncate), too-small, too-large (crafted-header, none-structured), MAC (bitflip)
+		//  gcm / chacha20: eof x2 (truncate), too-large (crafted-header), open / MAC failure (bitflip), empty, padding<4,
+		//                  padding too large (crafted-aead-padding)
+		//  cbc: eof x2 (truncate), too-large, too-small, not-a-multiple (crafted-header), padding-length (crafted-cbc-header), MAC (bitflip)
+		g.Stat("table.reader-error-arms=31/31")
+	}()
 	// fully random streams into every reader, and structured junk into `none`
-	nr := g.Count(3000, 200000)
+	nr := g.Count(2500, 200000)
 	for i := 0; i < nr; i++ {
 		pr := hx.Pick(r, pairs)
 		k := newKeys(r, pr[0], pr[1])
